@@ -7,7 +7,7 @@ import tempfile
 
 from hypothesis import strategies as st
 
-from .. import gen, norm, states
+from .. import gen, norm, states, walk
 from ..common import lib
 from ..core import Violation, require
 from ..spec import build, child_specs, kinds, qexpr, walk_spec
@@ -204,6 +204,7 @@ def check(case):  # noqa: PLR0915
         for name, fn in routes.items():
             r = fn()
             reloads[name] = r
+            walk.require_views(r, name)
             back = json.loads(json.dumps(r.toJson(), allow_nan=False))
             kn, other = split_known_names(jdiff(wire, back))
             require(not other, "roundtrip-differs", lambda: f"{name} re-serialises differently: {fmtj(other)}")  # noqa: B023
@@ -233,6 +234,7 @@ def check(case):  # noqa: PLR0915
     ]
     for name, fr, fh in ops:
         got, want = fr(), fh()
+        walk.require_views(got, name)
         dd = norm.diff(ndoc(want), ndoc(got), pol)
         if dd and boolcat and name in ("r+h", "h+r", "(r+h).toJson roundtrip"):
             raise Violation(
